@@ -164,7 +164,11 @@ def check(case):
             f"{case['fam']}: update {c} differs between two independently constructed optimizers")
   nontrivial = False
   for k in range(T + 1):
-    blob = serialization.to_bytes(states[k])
+    try:
+      blob = serialization.to_bytes(states[k])
+    except Exception as e:  # pylint: disable=broad-except
+      require(False, "state-is-serializable",
+              f"{case['fam']} k={k}: flax.serialization.to_bytes(state) fails: {type(e).__name__}: {str(e)[:200]}")
     initk, updk, _ = make(case)          # freshly constructed optimizer, fresh closures
     template = initk(p)
     try:
